@@ -35,6 +35,25 @@ _SignatureOutput = dict[
 ]  # output_argument_name -> tensor_value.
 
 
+def _verif_trace(make_event):
+  """Verification hook (off unless AI_EDGE_QUANTIZER_VERIF=1 and a trace file is set).
+
+  Appends one JSON line (make_event()) per calibration step: session start/end (with the tensor
+  names that hold statistics / an empty entry), sample start (length of the
+  operator list) and every operator whose statistics were folded.
+  """
+  import json  # pylint: disable=g-import-not-at-top
+  import os  # pylint: disable=g-import-not-at-top
+
+  if os.environ.get('AI_EDGE_QUANTIZER_VERIF') != '1':
+    return
+  path = os.environ.get('AI_EDGE_QUANTIZER_VERIF_CALIB_TRACE')
+  if not path:
+    return
+  with open(path, 'a') as trace_file:
+    trace_file.write(json.dumps(make_event()) + '\n')
+
+
 class Calibrator:
   """Calibrator for TFLite model."""
 
@@ -110,6 +129,11 @@ class Calibrator:
           " reset_model_qsvs to reset model qsvs."
       )
 
+    _verif_trace(lambda: {
+        'ev': 'start',
+        'filled': sorted(k for k, v in self._model_qsvs.items() if v),
+        'empty': sorted(k for k, v in self._model_qsvs.items() if not v),
+    })
     # TODO: b/329322226 - Enable parrallel calibration.
     for data in calibration_dataset:
       # Initialize tensor names that are updated in this round of calibration.
@@ -140,7 +164,14 @@ class Calibrator:
         subgraph.operators += (
             tfl_flatbuffer_utils.get_subgraph_input_output_operators(subgraph)
         )
+        _verif_trace(lambda: {
+            'ev': 'sample',
+            'sub': subgraph_index,
+            'nops': len(subgraph.operators),  # pylint: disable=cell-var-from-loop
+        })
+        verif_op_index = -1
         for op in subgraph.operators:
+          verif_op_index += 1
           if isinstance(op, qtyping.IOOperator):
             op_key = op.op_key
           else:
@@ -168,8 +199,19 @@ class Calibrator:
               op_qsvs, updated_tensor_names, qsv_update_func
           )
           updated_tensor_names.update(op_updated_tensor_name)
+          _verif_trace(lambda: {
+              'ev': 'op',
+              'opi': verif_op_index,  # pylint: disable=cell-var-from-loop
+              'updated': sorted(op_updated_tensor_name),  # pylint: disable=cell-var-from-loop
+          })
+      _verif_trace(lambda: {'ev': 'sample_end'})
       # Reset interpreter after one round of calibration.
       self._tfl_interpreter.reset_all_variables()
+    _verif_trace(lambda: {
+        'ev': 'end',
+        'filled': sorted(k for k, v in self._model_qsvs.items() if v),
+        'empty': sorted(k for k, v in self._model_qsvs.items() if not v),
+    })
 
   def get_model_qsvs(self) -> dict[str, qtyping.QSV]:
     """Get the model qsvs.
